@@ -8,6 +8,8 @@ CONSTANTS
   MaxFaults = 2
   UnpubOn = TRUE
   TwoVersions = TRUE
+  Expiry = FALSE
+  KeepExpiredUnpublished = FALSE
   MaxSteps = 16
 INVARIANT Emit
 CHECK_DEADLOCK FALSE
